@@ -152,6 +152,7 @@ def end_to_end(ctx, rng):
     wd = Workdir()
     try:
         ds = free_dataset(rng, extra_shear=3, lattice=True, nq=2, nat=2, settings={"NT": 5, "DT": 300, "NTV": 8})
+        ds.nm = int(rng.choice([2, 4]))               # several formula units per cell (C_V is the cell's, whatever their number)
         d = wd.sub("gap")
         try:
             ds.fit_pressure_window(d)
